@@ -1,4 +1,3 @@
 import Mwp.Model.Analysis
-import Mwp.Spec.Calculus
 namespace Mwp.Props.C15
 end Mwp.Props.C15
